@@ -90,6 +90,20 @@ def g_dropin(prop, bound):
                 exhaustive=True, tasks=[dict(module='contracts.dropin', want=[prop], args=a, cross=False) for a in T])
 
 
+def g_support(prop, bound, maxkeys):
+    T = []
+    for sh in harness.shapes(*bound):
+        npos = sh[0] + sh[1]
+        for na in range(npos + 3):
+            for nk in range(maxkeys + 1):
+                T.append(dict(mode='bind', shape=sh, nargs=na, nkeys=nk))
+        T.append(dict(mode='makeup', shape=sh))
+    for sh in harness.shapes(1, 1, 1, 2):
+        T.append(dict(mode='sort', shape=sh, nargs=sh[0] + sh[1], nkeys=1))
+    return dict(name='support binder', bound=bound_text(bound) + '; 0..positionals+2 positional arguments, 0..%d keywords whose NAMES are symbolic (may name any parameter or none), argument values symbolic' % maxkeys,
+                exhaustive=True, tasks=[dict(module='contracts.support', want=[prop], args=a) for a in T])
+
+
 def plan(prop, tier, seed=0):
     """returns list of job groups: dict(name, tasks, bound, exhaustive)"""
     q = tier == 'quick'
@@ -121,6 +135,8 @@ def plan(prop, tier, seed=0):
               g_forwards(prop, BS, 1, 60 if q else 1200, seed)]
         if prop in ('C08', 'C10', 'C11'):
             G += [g_partial(prop, B1, 1), g_partial(prop, B1 if q else (1, 2, 1, 3), 0, 'plain')]
+    if prop == 'C20':
+        G += [g_support(prop, (1, 2, 1, 3) if q else (2, 2, 2, 4), 2 if q else 3)]
     if prop == 'C14':
         G += [g_dropin(prop, B1), g_partial(prop, B1 if q else (1, 2, 1, 3), 0, 'plain')]
     if prop in ('C04', 'C07', 'C15', 'C16', 'C13'):
